@@ -33,8 +33,9 @@ var faults = []string{"stall", "eof", "inject", "flood", "cancel"}
 
 func Spec() *mon.Spec {
 	return &mon.Spec{
-		ID:    "C08",
-		Level: "fault_enumeration",
+		ID:      "C08",
+		RuleAdd: "Later additions (rounds 4-17): caller deadlines far beyond the client timeout and already expired ones; stall tails spelled three ways; zero serial timeout; a connection dead right after the write; injected failures in four shapes (plain, connection timed out, connection reset, interrupted call), handed over with 0..rest bytes; connections without addresses; sockets that fail every call after Close; a serial line dripping one byte per 25 ms read; EOF before the first reply byte must be the retryable error; a cancellation must not be dressed as the retryable error; nil request also with hooks installed.",
+		Level:   "fault_enumeration",
 		Rule: "for every client kind x 10 functions x reply sizes, the scripted transport delivers a prefix p of the correct reply (every p in 0..L-1 for replies <= 40 bytes, boundary+PRNG prefixes otherwise) and then injects one fault: stall forever (timed-out reads), EOF, I/O error from Read, a 600-byte flood, context cancel on entering the k-th Read; plus write error, never-connected client, NewSerialClient(nil), nil request, serial flush failing; plus two-call sequences on ONE client (first call: ok | stall-timeout | eof | I/O error | cancel; second call: any fault or a clean exchange). " +
 			"Oracle: Do returns (a 20x-timeout+20s watchdog plus a second 40s wait before 'hang'), no panic, err != nil, nil response; stall/Read error/Write error/flood => *ClientError (wrapping the injected error / the packet-too-long error), cancel => errors.Is(context.Canceled), unconnected/nil => error with an empty transport log; logical step bounds: no Read after an injected Read error, <=1 Read after cancel, no Read after a flood was detected. A clean second exchange after a faulted first one must succeed. distinct key=(client, fc, p, fault[, first-call fault]).",
 		Assumptions: []string{"clients are configured with a 30 ms (network) / 40 ms (serial) total read timeout; the wall clock only bounds the run, verdicts come from the error value and the transport log",
